@@ -51,6 +51,20 @@ Theorem C16_call_is_direct_evaluation : forall n ps body args d vs,
 Proof. exact beta. Qed.
 Print Assumptions C16_call_is_direct_evaluation.
 
+(* partial application: calling the partial function item f(a, ?, c) with (b) binds every parameter to the value the
+   direct call f(a, b, c) binds it to - the fixed values are those evaluated where the item was created, whatever is
+   bound later (E) - so the body is evaluated in an environment with the same bindings (env_eq: equal lookups) *)
+Theorem C16_partial_application_binds_as_direct_call : forall ps slots d rest d' vs E,
+  partial ps slots d = Some (rest, d') -> length rest = length vs -> NoDup ps ->
+  (forall p, In p ps -> ~ In p (map fst E)) ->
+  env_eq (bind_all rest vs (E ++ d')) (bind_all ps (fill slots vs) (E ++ d)).
+Proof. exact partial_fill. Qed.
+Print Assumptions C16_partial_application_binds_as_direct_call.
+Example C16_partial_nonvacuous :
+  partial [1%nat; 2%nat; 3%nat] [Some [VInt 7]; None; Some [VInt 9]] [] = Some ([2%nat], [(3%nat, [VInt 9]); (1%nat, [VInt 7])]) /\
+  fill [Some [VInt 7]; None; Some [VInt 9]] [[VInt 8]] = [[VInt 7]; [VInt 8]; [VInt 9]].
+Proof. split; reflexivity. Qed.
+
 Example C16_nonvacuous :
   (* (for $i in (1, 2) return function() { $i }) ! .()  =  (1, 2) *)
   eval 10 (EBang (EFor 0 (ELit [1; 2]) (ELam [] (EVar 0))) []) [] = Some [VInt 1; VInt 2] /\
